@@ -432,6 +432,9 @@ fn stack_op(op: &str, n: usize, dotted: bool) -> usize {
         "from_value" => { let v = long_list(n, false); let xs: Vec<u64> = serde_lexpr::from_value(&v).unwrap(); std::mem::forget(v); xs.len() }
         #[cfg(feature = "fast-float")]
         "from_value_ignored" => serdecheck::ignored_long(n),
+        #[cfg(feature = "fast-float")]
+        "from_value_mismatch" => { let v = long_list(n, dotted); let a = serde_lexpr::from_value::<String>(&v).is_err() as usize;
+            let w = Value::list(vec![Value::from(1), v]); let b = serde_lexpr::from_value::<Vec<u32>>(&w).is_err() as usize; std::mem::forget(w); a + b }
         _ => panic!("unknown op"),
     }
 }
@@ -549,7 +552,17 @@ fn parse_one(opts: &Options, src: &str, api: &str, data: Vec<u8>, fail_at: Optio
             "slice" => lexpr::from_slice_custom(&data, opts),
             _ => lexpr::from_reader_custom(FaultReader { data, pos: 0, fail_at }, opts),
         };
-        match r { Ok(v) => jvalue(out, &v), Err(e) => jerr(out, &e) }
+        match r {
+            Ok(v) => jvalue(out, &v),
+            Err(e) => {
+                // category, code, position, and the kind of the documented conversion to std::io::Error
+                let mut tmp = String::new();
+                jerr(&mut tmp, &e);
+                let kind = format!("{:?}", std::io::Error::from(e).kind());
+                let tmp = tmp.trim_end_matches('}').trim_end_matches('}').to_string();
+                write!(out, "{},\"io_kind\":\"{}\"}}}}", tmp, kind).unwrap();
+            }
+        }
     } else {
         match src {
             "str" => match std::str::from_utf8(&data) { Ok(s) => run_parser(Parser::from_str_custom(s, opts), api, out), Err(_) => { out.push_str("{\"skip\":\"not utf8\"}"); } },
